@@ -6,6 +6,18 @@ commits = subprocess.run(["git","-C","/repo","log","--format=%H %s"],capture_out
 hook_commits = [c.split()[0] for c in commits if c.split(" ",1)[1].startswith("verif:")]
 
 CLAIMED = {
+ "C03": dict(
+   text="The pass-through guarantee is reduced to a frame condition on the value representation and proved function by function: every inferrer (default, -O, -A, -S), the three Set* setters they use, Type(), String(), OriginalString(), StringMaybeQuoted(), GetTypeName/GetTypeBit and setPrintRep keep the original text byte for byte (printrep unchanged and still valid) and touch no other value; String() returns exactly that text unless --ofmt is set and the value is a float (the documented exception, stated literally in the contract).",
+   note="Assumed: FormatAsJSON (collections) and Copy are trusted contracts; the --ofmt formatter is an interface-level assumed contract; that each verb/DSL node reaches field values only through these functions (read-only API) is NOT checked (no call-graph frame sweep was built); JSON/YAML re-rendering of non-JSON numerals (marshalJSON*) is not under contract.",
+   ref="DESIGN.md §3.C03"),
+ "C14": dict(
+   text="Kernel-level contracts named by the property: 1-up indexing with negative aliases (UnaliasArrayLengthIndex/UnaliasArrayIndex/arrayGetAliased, exact table for all ints), inclusive slices with out-of-range trimming for 1-up and 0-up callers (MillerSliceAccess, all int64 bounds), auto-extend (LengthenMlrvalArray: exact new length, old elements kept, new slots JSON null; three loops with invariants, aliasing-aware), the type gate (TypeGatedMlrvalName.Check/Assign/NewTypeGatedMlrvalVariable: gate applied at every assignment, failed assignment leaves the slot unchanged), block scoping at the data-structure level (StackFrame.has/get/clear, StackFrameSet.get returns the innermost binding, with termination; cleared pooled frames have no bindings).",
+   note="Not decided by this family: the interpreter as a whole (pkg/dsl/cst: closures over a generated parser that is emptied in this tree), precedence/grammar, control flow, emit splitting, UDF call protocol, 'set updates the nearest enclosing binding' (StackFrameSet.set: frame contracts over Go maps did not discharge), recursive PutIndexed. Copy() is a trusted contract. Absent-skip is under C08, field order under C12.",
+   ref="DESIGN.md §3.C14"),
+ "C16": dict(
+   text="Miller's own arithmetic around the (trusted) Go time package: splitIntToDHMS is proved to split every integer except the minimum int64 into d/h/m/s whose magnitudes recombine exactly to |u| with the sign on the leading non-zero component only (the inverse law of sec2dhms/dhms2sec at the integer level); the nanosecond divisor table is 10^(9-n) cell by cell and goTimeToFormattedTime never indexes it out of range nor divides by its zero slot for any requested precision; sec2dhms/sec2hms/fsec2dhms/fsec2hms/dhms2sec/dhms2fsec/hms2sec/hms2fsec are panic-free for every well-formed argument kind and return string or error.",
+   note="Trusted: Go time/strftime (Gregorian and IANA rules, DST), fmt.Sprintf/Sscanf text layer (assumed mutually inverse on %d). Not decided: strptime (pkg/pbnjay-strptime) - not under contract; float recombination error bound; *_local zone selection.",
+   ref="DESIGN.md §3.C16"),
  "C06": dict(
    text="The scanner pkg/scan (FindScanType and its six helpers, all byte loops with inductive invariants, no bound on the field length) is proved equal to a string-level specification of the documented number grammar (ClassStr: sign, 0x/0o/0b prefixes, leading zeros, float characters, everything else string); the four 128-cell digit tables are checked cell by cell; the inferrer tables are proved to be indexed by scan type; every inferrer's precondition is the scanner's postcondition for its class and its postcondition gives the documented kind (int/float/string/empty, -O, -A, -S variants), a well-formed payload and the untouched original text; Type() infers once; the is_* functions are proved to be functions of that single classification.",
    note="Assumed: strconv.ParseInt/ParseUint/ParseFloat are uninterpreted (numeric VALUES of literals, hex two's-complement wrap and float accuracy are not decided; one trusted axiom: ParseFloat accepts every all-decimal-digit text); lengths of strings/slices <= 2^40; JSON decode dispatch (string token never inferred) is not under contract.",
